@@ -210,3 +210,28 @@ fn d14_sdo_info_endless_fragments_terminate() {
     assert!(res.is_ok());
     assert!(reads <= 70_000, "the request kept reading fragments that make no progress ({} reads)", reads);
 }
+
+/// normal upload response carrying `data` completely (complete size = data.len())
+fn upload_normal_with(index: u16, sub: u8, data: &[u8]) -> Vec<u8> {
+    let mut v = mbx(0x0a + data.len() as u16, 0x03);
+    v[8] = 2 << 5; // command Upload, not expedited
+    v[9..11].copy_from_slice(&index.to_le_bytes());
+    v[11] = sub;
+    v[12..16].copy_from_slice(&(data.len() as u32).to_le_bytes());
+    v[16..16 + data.len()].copy_from_slice(data);
+    v
+}
+
+#[test]
+fn d27_array_of_words_as_sdo_destination() {
+    // an 8-byte object read into [u16; 4]: `<[u16; 4] as EtherCrabWireSized>::buffer()` was only 4 bytes long (N instead of
+    // N * 2), so sdo_read refused every such object as "too long" (and eeprom_read / register_read of such a type got a
+    // buffer that cannot hold the value)
+    assert_eq!(<[u16; 4] as ethercrab_wire::EtherCrabWireSized>::PACKED_LEN, 8);
+    assert_eq!(<[u16; 4] as ethercrab_wire::EtherCrabWireSized>::buffer().as_ref().len(), 8, "buffer() must hold PACKED_LEN bytes");
+    let (res, _) = with_device(
+        |_| upload_normal_with(0x1234, 1, &[1, 0, 2, 0, 3, 0, 4, 0]),
+        |md, sd| { let r = SubDeviceRef::new(&md, 0x1001, sd); cassette::block_on(r.sdo_read::<[u16; 4]>(0x1234, 1)) },
+    );
+    assert_eq!(res.expect("panicked"), Ok([1u16, 2, 3, 4]));
+}
